@@ -57,6 +57,7 @@ CalcOf(c) ==
                       !.mon = [remove |-> c.mon[1], round |-> c.mon[2]],
                       !.tz = c.tz]
 
+PrintableKinds == {"num", "pct", "money", "dur", "time", "date", "unit"}     \* the kinds C15 lists (a based integer is a num)
 Sep(x) == IF x = "" THEN <<>> ELSE <<x>>
 \* the format setting that applies to a value of the event's kind: numbers and percentages have their own settings,
 \* money takes the currency's digit count, a unit quantity its item's settings
@@ -111,6 +112,11 @@ TNext ==
          [] e.ev = "set_num" -> SetNumberCfg([d |-> e.d, remove |-> e.remove, round |-> e.round]) /\ bad' = bad
          [] e.ev = "set_pct" -> SetPercentCfg([d |-> e.d, remove |-> e.remove, round |-> e.round]) /\ bad' = bad
          [] e.ev = "set_mon" -> SetMoneyCfg([remove |-> e.remove, round |-> e.round]) /\ bad' = bad
+         [] e.ev = "roundtrip" ->
+              \* C15: the printed form of a result, entered as a new line under the same configuration and language,
+              \* evaluates to a value of the same kind that prints the same again
+              /\ Judge(e.kind \in PrintableKinds /\ e.kind2 = e.kind /\ e.out2 = e.out1, <<[k |-> e.kind, out |-> e.out1]>>)
+              /\ last' = [call |-> "roundtrip"] /\ UNCHANGED <<calc, sess, run, today>>
          [] e.ev = "session_new" -> NewSession(e.s) /\ bad' = bad
          [] e.ev = "set_language" -> SetLanguage(e.s, e.lang) /\ bad' = bad
          [] e.ev = "set_text" -> SetText(e.s, e.lines) /\ bad' = bad
